@@ -1291,7 +1291,7 @@ theorem addEom_guards {s : SeqState} {n : ChName} {dur : Nat} {ph po : Rat} {pro
           unfold ChanState.inEomMode
           rw [hb]
           cases htf : b.tf with
-          | none => rfl
+          | none => simp [htf]
           | some x => rw [htf] at g1; simp at g1
 
 theorem delay_guards {s : SeqState} {d : Int} {n : ChName} {atRest : Bool}
@@ -1341,6 +1341,554 @@ theorem phaseShift_guards {s : SeqState} {phi : Rat} {qs : List Nat} {b : Basis}
     by_cases g1 : qs.any (· ≥ s.nQ) = true
     · rw [if_pos g1] at h1; simp [fail] at h1
     · simpa using g1
+
+/-! ### The template's bookkeeping agrees with a state of the direct construction -/
+
+structure Agree (t : Tmpl) (s : SeqState) : Prop where
+  nQ : s.nQ = t.pre.nQ
+  dev : s.dev = t.pre.dev
+  inXY : s.inXY = t.pre.inXY
+  sig : ∀ m, sigOf s m = sigOf t.pre m
+  mode : ∀ m, modeOf s m = none ∨ modeOf s m = some (inEomT t m)
+  meas : s.measured.isSome = t.paramMeas.isSome
+  bases : s.refs.map (·.1) = t.pre.refs.map (·.1)
+
+theorem Agree.chan {t : Tmpl} {s : SeqState} (ha : Agree t s) {n : ChName} {c : ChanState}
+    (hc : s.getChan n = some c) :
+    ∃ c0, t.pre.getChan n = some c0 ∧ sigX c = sigX c0 ∧ inEomT t n = c.inEomMode := by
+  have hs := ha.sig n
+  unfold sigOf at hs
+  rw [hc] at hs
+  cases h0 : t.pre.getChan n with
+  | none => rw [h0] at hs; simp at hs
+  | some c0 =>
+    rw [h0] at hs
+    simp only [Option.map_some, Option.some.injEq] at hs
+    refine ⟨c0, rfl, hs, ?_⟩
+    have hm := ha.mode n
+    unfold modeOf at hm
+    rw [hc] at hm
+    simp only [Option.map_some] at hm
+    rcases hm with hm | hm
+    · cases hm
+    · injection hm with hm; exact hm.symm
+
+theorem Agree.unmeasured {t : Tmpl} {s : SeqState} (ha : Agree t s) (h : s.measured = none) :
+    t.paramMeas.isSome = false := by
+  rw [← ha.meas, h]; rfl
+
+theorem sigX_cfg {c c0 : ChanState} (h : sigX c = sigX c0) : c.cfg = c0.cfg := by
+  unfold sigX at h; simp only [Prod.mk.injEq] at h; exact h.2.1
+
+theorem getRefs_isSome (s : SeqState) (b : Basis) :
+    (s.getRefs b).isSome = (s.refs.map (·.1)).any (· == b) := by
+  unfold SeqState.getRefs
+  induction s.refs with
+  | nil => rfl
+  | cons x rest ih =>
+    simp only [List.find?_cons, List.map_cons, List.any_cons]
+    cases hx : (x.1 == b) with
+    | true => simp
+    | false => simpa using ih
+
+theorem Agree.basis {t : Tmpl} {s : SeqState} (ha : Agree t s) (b : Basis) :
+    (t.pre.getRefs b).isSome = (s.getRefs b).isSome := by
+  rw [getRefs_isSome, getRefs_isSome, ha.bases]
+
+theorem Agree.measBasis {t : Tmpl} {s : SeqState} (ha : Agree t s) (b : Basis) :
+    measBasisOk t.pre b = measBasisOk s b := by
+  unfold measBasisOk
+  rw [ha.inXY, ha.dev]
+
+/-- The evaluated indices of an array target are pairwise distinct (otherwise the size of the
+variable overestimates the number of targets: see `C08.store_rejects_what_direct_accepts`). -/
+def targetsDistinct (I : Interp) (ρ : Assign) : POp → Prop
+  | .target (.arr es) _ => ∀ l, evalList I ρ es = some l → (normTargets l).length = es.length
+  | _ => True
+
+theorem normTargets_nil_iff (l : List Nat) : (normTargets l).isEmpty = l.isEmpty := by
+  cases l with
+  | nil => rfl
+  | cons x rest =>
+    simp only [normTargets, List.foldr_cons, List.isEmpty_cons]
+    generalize List.foldr insertU [] rest = r
+    cases r with
+    | nil => rfl
+    | cons y ys =>
+      unfold insertU
+      split
+      · rfl
+      · split <;> rfl
+
+theorem mem_insertU (x y : Nat) (l : List Nat) : x ∈ insertU y l ↔ x = y ∨ x ∈ l := by
+  induction l with
+  | nil => simp [insertU]
+  | cons z rest ih =>
+    unfold insertU
+    split
+    · simp
+    · split
+      · rename_i h1 h2; subst h2; simp
+      · simp only [List.mem_cons, ih]
+        constructor
+        · rintro (h | h | h)
+          · exact Or.inr (Or.inl h)
+          · exact Or.inl h
+          · exact Or.inr (Or.inr h)
+        · rintro (h | h | h)
+          · exact Or.inr (Or.inl h)
+          · exact Or.inl h
+          · exact Or.inr (Or.inr h)
+
+theorem mem_normTargets {x : Nat} {l : List Nat} (h : x ∈ l) : x ∈ normTargets l := by
+  unfold normTargets
+  induction l with
+  | nil => cases h
+  | cons y rest ih =>
+    simp only [List.foldr_cons, mem_insertU]
+    rcases List.mem_cons.mp h with e | e
+    · exact Or.inl e
+    · exact Or.inr (ih e)
+
+theorem evalNats_mem {I : Interp} {ρ : Assign} {qs : List (Arg Nat)} {l : List Nat} {i : Nat}
+    (h : evalNats I ρ qs = some l) (hm : Arg.conc i ∈ qs) : i ∈ l := by
+  induction qs generalizing l with
+  | nil => cases hm
+  | cons a0 rest ih =>
+    simp only [evalNats] at h
+    cases h1 : evalNat I ρ a0 with
+    | none => rw [h1] at h; simp at h
+    | some v =>
+      cases h2 : evalNats I ρ rest with
+      | none => rw [h1, h2] at h; simp at h
+      | some vs =>
+        rw [h1, h2] at h
+        simp only [Option.some.injEq] at h
+        subst h
+        rcases List.mem_cons.mp hm with e | e
+        · subst e
+          simp only [evalNat, Option.some.injEq] at h1
+          subst h1; exact List.mem_cons_self
+        · exact List.mem_cons_of_mem _ (ih h2 e)
+
+/-- **Store-time checks are implied by the build-time checks**: when the template's
+bookkeeping agrees with the state of the direct construction and the evaluated call succeeds
+there, every check the call goes through when it is STORED passes. -/
+theorem store_accepts_of_direct (I : Interp) (ρ : Assign) {t : Tmpl} {s : SeqState} {p : POp} {op : Op}
+    (ha : Agree t s) (hev : evalOp I ρ p = some op) (hok : (stepRaw s op).err = none)
+    (hnd : targetsDistinct I ρ p) : storeCheck t p = none := by
+  cases p with
+  | target qs n =>
+    simp only [evalOp, Option.map_eq_some_iff] at hev
+    obtain ⟨l, hl, rfl⟩ := hev
+    obtain ⟨hm, c, hc, hmode, hne, hloc, hmax, hq⟩ := target_guards hok
+    obtain ⟨c0, hc0, hsig, hin⟩ := ha.chan hc
+    have hcfg := sigX_cfg hsig
+    unfold storeCheck
+    simp only [ha.unmeasured hm, Bool.false_eq_true, if_false, hc0, hin, hmode]
+    cases qs with
+    | conc l' =>
+      simp only [evalTArg, Option.some.injEq] at hl
+      subst hl
+      have hlen : ¬ l'.length = 0 := by
+        cases l' with
+        | nil => simp at hne
+        | cons _ _ => simp
+      simp only [hlen, if_false, ← hcfg, hloc, hmax, Bool.not_true, Bool.false_eq_true, ← ha.nQ, hq]
+    | arr es =>
+      simp only [evalTArg, Option.map_eq_some_iff] at hl
+      obtain ⟨vals, hv, rfl⟩ := hl
+      have hd := hnd vals hv
+      have hlen : ¬ es.length = 0 := by
+        rw [← hd]
+        cases hh : normTargets vals with
+        | nil => rw [hh] at hne; simp at hne
+        | cons _ _ => simp
+      have hmax' : overNat c.cfg.maxTargets es.length = false := by rw [← hd]; exact hmax
+      simp only [hlen, if_false, ← hcfg, hloc, hmax', Bool.not_true, Bool.false_eq_true]
+  | add pp n proto =>
+    simp only [evalOp, Option.map_eq_some_iff] at hev
+    obtain ⟨pi, hpi, rfl⟩ := hev
+    obtain ⟨hm, hpr, c, hc, hmode, hdmm, r, pr, hva⟩ := add_guards hok
+    obtain ⟨c0, hc0, hsig, hin⟩ := ha.chan hc
+    have hcfg := sigX_cfg hsig
+    unfold storeCheck
+    simp only [ha.unmeasured hm, Bool.false_eq_true, if_false, hc0, hin, hmode, ← hcfg, hdmm]
+    cases proto with
+    | none => simp at hpr
+    | some pr0 =>
+      simp only
+      cases pp with
+      | param mk args => rfl
+      | conc pi' =>
+        simp only [evalPulse, Option.some.injEq] at hpi
+        subst hpi
+        obtain ⟨pr', hpr'⟩ := validateAndAdjust_sig hsig hva none
+        simp only [hpr']
+  | addDmm pp n proto =>
+    simp only [evalOp, Option.map_eq_some_iff] at hev
+    obtain ⟨pi, hpi, rfl⟩ := hev
+    obtain ⟨hm, hpr, c, hc, hdmm, r, pr, hva⟩ := addDmm_guards hok
+    obtain ⟨c0, hc0, hsig, hin⟩ := ha.chan hc
+    have hcfg := sigX_cfg hsig
+    unfold storeCheck
+    simp only [ha.unmeasured hm, Bool.false_eq_true, if_false, hc0, ← hcfg, hdmm, Bool.not_true]
+    cases proto with
+    | none => simp at hpr
+    | some pr0 =>
+      simp only
+      cases pp with
+      | param mk args => rfl
+      | conc pi' =>
+        simp only [evalPulse, Option.some.injEq] at hpi
+        subst hpi
+        obtain ⟨pr', hpr'⟩ := validateAndAdjust_sig hsig hva none
+        simp only [hpr']
+  | addEom n dur phase post proto corr fall ref =>
+    simp only [evalOp] at hev
+    cases hd : evalNat I ρ dur with
+    | none => rw [hd] at hev; simp at hev
+    | some d =>
+      cases hph : evalRat I ρ phase with
+      | none => rw [hd, hph] at hev; simp at hev
+      | some ph =>
+        cases hpo : evalRat I ρ post with
+        | none => rw [hd, hph, hpo] at hev; simp at hev
+        | some po =>
+          rw [hd, hph, hpo] at hev
+          simp only [Option.some.injEq] at hev
+          subst hev
+          obtain ⟨hm, hpr, c, hc, hmode, dd, hvd⟩ := addEom_guards hok
+          obtain ⟨c0, hc0, hsig, hin⟩ := ha.chan hc
+          have hcfg := sigX_cfg hsig
+          unfold storeCheck
+          simp only [ha.unmeasured hm, Bool.false_eq_true, if_false, hc0, hin, hmode, Bool.not_true]
+          cases proto with
+          | none => simp at hpr
+          | some pr0 =>
+            simp only
+            cases dur with
+            | param e => rfl
+            | conc d' =>
+              simp only [evalNat, Option.some.injEq] at hd
+              subst hd
+              simp only [← hcfg, hvd]
+  | delay d n atRest =>
+    simp only [evalOp, Option.map_eq_some_iff] at hev
+    obtain ⟨dv, _, rfl⟩ := hev
+    obtain ⟨hm, c, hc⟩ := delay_guards hok
+    obtain ⟨c0, hc0, _, _⟩ := ha.chan hc
+    unfold storeCheck
+    simp only [ha.unmeasured hm, Bool.false_eq_true, if_false, hc0]
+  | align chs atRest =>
+    simp only [evalOp, Option.some.injEq] at hev
+    subst hev
+    obtain ⟨hm, hall, hdup, hlen⟩ := align_guards hok
+    have hall' : chs.any (fun n => (t.pre.getChan n).isNone) = false := by
+      rw [List.any_eq_false] at hall ⊢
+      intro n hn
+      have := hall n hn
+      cases hc : s.getChan n with
+      | none => rw [hc] at this; simp at this
+      | some c =>
+        obtain ⟨c0, hc0, _, _⟩ := ha.chan hc
+        rw [hc0]; simp
+    unfold storeCheck
+    simp only [ha.unmeasured hm, Bool.false_eq_true, if_false, hall', hdup, ne_eq, not_true_eq_false, hlen]
+  | phaseShift phi qs b =>
+    simp only [evalOp] at hev
+    cases hphi : evalRat I ρ phi with
+    | none => rw [hphi] at hev; simp at hev
+    | some x =>
+      cases hqs : evalNats I ρ qs with
+      | none => rw [hphi, hqs] at hev; simp at hev
+      | some l =>
+        rw [hphi, hqs] at hev
+        simp only [Option.some.injEq] at hev
+        subst hev
+        obtain ⟨hb, hq⟩ := phaseShift_guards hok
+        unfold storeCheck
+        simp only [Option.isNone_iff_eq_none]
+        have hbn : ¬ (t.pre.getRefs b = none) := by
+          intro h0
+          have := ha.basis b
+          rw [h0, hb] at this
+          simp at this
+        simp only [hbn, if_false]
+        have hbad : concIdxBad t.pre.nQ qs = false := by
+          unfold concIdxBad
+          rw [List.any_eq_false]
+          intro a hamem
+          cases a with
+          | param e => simp
+          | conc i =>
+            have hmem : i ∈ normTargets l := mem_normTargets (evalNats_mem hqs hamem)
+            have hne : (normTargets l).isEmpty = false := by
+              cases hh : normTargets l with
+              | nil => rw [hh] at hmem; cases hmem
+              | cons _ _ => rfl
+            have := hq hne
+            rw [List.any_eq_false] at this
+            have hi := this i hmem
+            simp only [ge_iff_le, decide_eq_true_eq] at hi ⊢
+            rw [← ha.nQ]; exact hi
+        simp only [hbad, Bool.false_eq_true, if_false]
+  | enableEom n e =>
+    simp only [evalOp, Option.map_eq_some_iff] at hev
+    obtain ⟨ei, hei, rfl⟩ := hev
+    obtain ⟨_, _, _, hold, hm, c, hc, heom, d, hpp⟩ := enableEom_step hok
+    obtain ⟨c0, hc0, hsig, hin⟩ := ha.chan hc
+    have hcfg := sigX_cfg hsig
+    have hmode : c.inEomMode = false := by
+      unfold modeOf at hold; rw [hc] at hold; simpa using hold
+    have heom0 : c0.cfg.eom.isNone = false := by
+      rw [← hcfg]; cases hh : c.cfg.eom with
+      | none => rw [hh] at heom; simp at heom
+      | some x => rfl
+    unfold storeCheck
+    simp only [ha.unmeasured hm, Bool.false_eq_true, if_false, hc0, hin, hmode, heom0]
+    cases e with
+    | param mk a dd o corr => rfl
+    | conc e' =>
+      simp only [evalEom, Option.some.injEq] at hei
+      subst hei
+      simp only [← processEomParams_sig hsig, hpp]
+  | modifyEom n e =>
+    simp only [evalOp, Option.map_eq_some_iff] at hev
+    obtain ⟨ei, hei, rfl⟩ := hev
+    obtain ⟨_, _, _, hold, hm, c, hc, d, hpp⟩ := modifyEom_step hok
+    obtain ⟨c0, hc0, hsig, hin⟩ := ha.chan hc
+    have hmode : c.inEomMode = true := by
+      unfold modeOf at hold; rw [hc] at hold; simpa using hold
+    unfold storeCheck
+    simp only [ha.unmeasured hm, Bool.false_eq_true, if_false, hc0, hin, hmode, Bool.not_true]
+    cases e with
+    | param mk a dd o corr => rfl
+    | conc e' =>
+      simp only [evalEom, Option.some.injEq] at hei
+      subst hei
+      simp only [← processEomParams_sig hsig, hpp]
+  | disableEom n corr =>
+    simp only [evalOp, Option.some.injEq] at hev
+    subst hev
+    obtain ⟨_, _, _, hold, hm⟩ := disableEom_step hok
+    cases hc : s.getChan n with
+    | none => unfold modeOf at hold; rw [hc] at hold; simp at hold
+    | some c =>
+      obtain ⟨c0, hc0, hsig, hin⟩ := ha.chan hc
+      have hmode : c.inEomMode = true := by
+        unfold modeOf at hold; rw [hc] at hold; simpa using hold
+      unfold storeCheck
+      simp only [ha.unmeasured hm, Bool.false_eq_true, if_false, hc0, hin, hmode, Bool.not_true]
+  | measure b =>
+    simp only [evalOp, Option.some.injEq] at hev
+    subst hev
+    obtain ⟨_, hm, hbok⟩ := measure_step hok
+    unfold storeCheck
+    simp only [ha.unmeasured hm, Bool.false_eq_true, if_false, ha.measBasis b, hbok, Bool.not_true]
+
+/-! ### Storing keeps the agreement -/
+
+/-- What `tstep` does to the template when a call is accepted while parametrized. -/
+def storeT (t : Tmpl) (p : POp) : Tmpl :=
+  { t with stored := t.stored ++ [storedForm t p],
+           paramMeas := match p with | .measure b => some b | _ => t.paramMeas }
+
+theorem eomMarkP_storedForm (t : Tmpl) (p : POp) (m : ChName) :
+    eomMarkP m (storedForm t p) = eomMarkP m p := by
+  unfold storedForm
+  repeat' split
+  all_goals rfl
+
+theorem inEomT_store (t : Tmpl) (p : POp) (m : ChName) :
+    inEomT (storeT t p) m = (eomMarkP m p).getD (inEomT t m) := by
+  unfold inEomT storeT
+  simp only [List.reverse_append, List.reverse_cons, List.reverse_nil, List.nil_append, List.cons_append,
+    List.findSome?_cons, eomMarkP_storedForm]
+  cases eomMarkP m p <;> rfl
+
+theorem agree_of_same {t : Tmpl} {s s' : SeqState} {p : POp} (ha : Agree t s) (hs : Same s s')
+    (hmark : ∀ m, eomMarkP m p = none) (hmeas : ∀ b, p ≠ .measure b) : Agree (storeT t p) s' := by
+  refine ⟨hs.nQ.trans ha.nQ, hs.dev.trans ha.dev, hs.inXY.trans ha.inXY, ?_, ?_, ?_, hs.bases.trans ha.bases⟩
+  · intro m; rw [hs.toX.sigOf m]; exact ha.sig m
+  · intro m
+    rw [hs.modeOf m, inEomT_store, hmark m]
+    exact ha.mode m
+  · rw [hs.measured, ha.meas]
+    unfold storeT
+    cases p <;> first | rfl | exact absurd rfl (hmeas _)
+
+theorem agree_of_eom {t : Tmpl} {s s' : SeqState} {p : POp} {n : ChName} {b : Bool} (ha : Agree t s)
+    (hs : SameX s s')
+    (hm : ∀ m, modeOf s' m = if m = n then (modeOf s m).map (fun _ => b) else modeOf s m)
+    (hmark : ∀ m, eomMarkP m p = if n = m then some b else none) (hmeas : ∀ b, p ≠ .measure b) :
+    Agree (storeT t p) s' := by
+  refine ⟨hs.nQ.trans ha.nQ, hs.dev.trans ha.dev, hs.inXY.trans ha.inXY, ?_, ?_, ?_, hs.bases.trans ha.bases⟩
+  · intro m; rw [hs.sigOf m]; exact ha.sig m
+  · intro m
+    rw [hm m, inEomT_store, hmark m]
+    by_cases hmn : m = n
+    · subst hmn
+      simp only [if_true, Option.getD_some]
+      cases modeOf s m with
+      | none => left; rfl
+      | some x => right; rfl
+    · rw [if_neg hmn, if_neg (fun h => hmn h.symm)]
+      exact ha.mode m
+  · rw [hs.measured, ha.meas]
+    unfold storeT
+    cases p <;> first | rfl | exact absurd rfl (hmeas _)
+
+/-- **The agreement survives every successful stored call.** -/
+theorem agree_step (I : Interp) (ρ : Assign) {t : Tmpl} {s : SeqState} {p : POp} {op : Op}
+    (ha : Agree t s) (hev : evalOp I ρ p = some op) (hok : (stepRaw s op).err = none) :
+    Agree (storeT t p) (stepRaw s op).st := by
+  cases p with
+  | target qs n =>
+    simp only [evalOp, Option.map_eq_some_iff] at hev
+    obtain ⟨l, _, rfl⟩ := hev
+    exact agree_of_same ha (stepRaw_same rfl) (fun m => rfl) (fun b h => by cases h)
+  | add pp n proto =>
+    simp only [evalOp, Option.map_eq_some_iff] at hev
+    obtain ⟨l, _, rfl⟩ := hev
+    exact agree_of_same ha (stepRaw_same rfl) (fun m => rfl) (fun b h => by cases h)
+  | addDmm pp n proto =>
+    simp only [evalOp, Option.map_eq_some_iff] at hev
+    obtain ⟨l, _, rfl⟩ := hev
+    exact agree_of_same ha (stepRaw_same rfl) (fun m => rfl) (fun b h => by cases h)
+  | addEom n dur phase post proto corr fall ref =>
+    simp only [evalOp] at hev
+    cases hd : evalNat I ρ dur with
+    | none => rw [hd] at hev; simp at hev
+    | some d =>
+      cases hph : evalRat I ρ phase with
+      | none => rw [hd, hph] at hev; simp at hev
+      | some ph =>
+        cases hpo : evalRat I ρ post with
+        | none => rw [hd, hph, hpo] at hev; simp at hev
+        | some po =>
+          rw [hd, hph, hpo] at hev
+          simp only [Option.some.injEq] at hev
+          subst hev
+          exact agree_of_same ha (stepRaw_same rfl) (fun m => rfl) (fun b h => by cases h)
+  | delay d n atRest =>
+    simp only [evalOp, Option.map_eq_some_iff] at hev
+    obtain ⟨l, _, rfl⟩ := hev
+    exact agree_of_same ha (stepRaw_same rfl) (fun m => rfl) (fun b h => by cases h)
+  | align chs atRest =>
+    simp only [evalOp, Option.some.injEq] at hev
+    subst hev
+    exact agree_of_same ha (stepRaw_same rfl) (fun m => rfl) (fun b h => by cases h)
+  | phaseShift phi qs b =>
+    simp only [evalOp] at hev
+    cases hphi : evalRat I ρ phi with
+    | none => rw [hphi] at hev; simp at hev
+    | some x =>
+      cases hqs : evalNats I ρ qs with
+      | none => rw [hphi, hqs] at hev; simp at hev
+      | some l =>
+        rw [hphi, hqs] at hev
+        simp only [Option.some.injEq] at hev
+        subst hev
+        exact agree_of_same ha (stepRaw_same rfl) (fun m => rfl) (fun b h => by cases h)
+  | enableEom n e =>
+    simp only [evalOp, Option.map_eq_some_iff] at hev
+    obtain ⟨ei, _, rfl⟩ := hev
+    obtain ⟨hx, hm, _⟩ := enableEom_step hok
+    exact agree_of_eom ha hx hm (fun m => rfl) (fun b h => by cases h)
+  | modifyEom n e =>
+    simp only [evalOp, Option.map_eq_some_iff] at hev
+    obtain ⟨ei, _, rfl⟩ := hev
+    obtain ⟨hx, hm, _, hold, _⟩ := modifyEom_step hok
+    -- the mode of `n` was already "on": nothing changes in the template's view
+    refine ⟨hx.nQ.trans ha.nQ, hx.dev.trans ha.dev, hx.inXY.trans ha.inXY, ?_, ?_, ?_, hx.bases.trans ha.bases⟩
+    · intro m; rw [hx.sigOf m]; exact ha.sig m
+    · intro m
+      rw [hm m, inEomT_store]
+      have hmk : eomMarkP m (POp.modifyEom n e) = none := rfl
+      rw [hmk]
+      by_cases hmn : m = n
+      · subst hmn
+        rw [if_pos rfl, hold]
+        right
+        rcases ha.mode m with h | h
+        · rw [hold] at h; cases h
+        · rw [hold] at h; injection h with h; simp [← h]
+      · rw [if_neg hmn]; exact ha.mode m
+    · rw [hx.measured, ha.meas]; rfl
+  | disableEom n corr =>
+    simp only [evalOp, Option.some.injEq] at hev
+    subst hev
+    obtain ⟨hx, hm, _⟩ := disableEom_step hok
+    exact agree_of_eom ha hx hm (fun m => rfl) (fun b h => by cases h)
+  | measure b =>
+    simp only [evalOp, Option.some.injEq] at hev
+    subst hev
+    obtain ⟨h1, _, _⟩ := measure_step hok
+    rw [h1]
+    refine ⟨ha.nQ, ha.dev, ha.inXY, ?_, ?_, rfl, ha.bases⟩
+    · intro m; exact ha.sig m
+    · intro m
+      rw [inEomT_store]
+      exact ha.mode m
+
+/-- Every stored call of the list passes its store-time checks, one after the other. -/
+def acceptsAll (t : Tmpl) : List POp → Bool
+  | [] => true
+  | p :: rest => (storeCheck t p).isNone && acceptsAll (storeT t p) rest
+
+theorem acceptsAll_of_direct (I : Interp) (ρ : Assign) {t : Tmpl} {s s' : SeqState} {k : Nat}
+    {stored : List POp} {ops : List Op} (ha : Agree t s) (hev : evalOps I ρ stored = some ops)
+    (hrun : runAllFrom k s ops = .ok s') (hnd : ∀ p ∈ stored, targetsDistinct I ρ p) :
+    acceptsAll t stored = true := by
+  induction stored generalizing t s k ops with
+  | nil => rfl
+  | cons p rest ih =>
+    simp only [evalOps] at hev
+    cases h1 : evalOp I ρ p with
+    | none => rw [h1] at hev; simp at hev
+    | some op =>
+      cases h2 : evalOps I ρ rest with
+      | none => rw [h1, h2] at hev; simp at hev
+      | some os =>
+        rw [h1, h2] at hev
+        simp only [Option.some.injEq] at hev
+        subst hev
+        unfold runAllFrom at hrun
+        cases he : (stepRaw s op).err with
+        | some e => rw [he] at hrun; cases hrun
+        | none =>
+          rw [he] at hrun
+          have hacc := store_accepts_of_direct I ρ ha h1 he (hnd p List.mem_cons_self)
+          unfold acceptsAll
+          rw [hacc]
+          simp only [Option.isNone_none, Bool.true_and]
+          exact ih (agree_step I ρ ha h1 he) h2 hrun (fun q hq => hnd q (List.mem_cons_of_mem _ hq))
+
+/-- A freshly parametrized template agrees with its own concrete prefix. -/
+theorem agree_init {pre : SeqState} (vars : List (Nat × Nat)) (hi : PreInv pre) (hm : pre.measured = none) :
+    Agree { pre := pre, stored := [], vars := vars, param := true, paramMeas := none } pre := by
+  refine ⟨rfl, rfl, rfl, fun m => rfl, ?_, by rw [hm], rfl⟩
+  intro m
+  rcases hi m with ⟨h1, _⟩ | h1
+  · left; exact h1
+  · right
+    rw [h1]
+    unfold inEomT markOf
+    simp only [List.reverse_nil, List.findSome?_nil]
+    cases pre.calls.reverse.findSome? (eomMark m) <;> rfl
+
+/-- `tstep` on a parametrized template stores exactly what `storeT` says when the checks pass. -/
+theorem tstep_accepts {t : Tmpl} {p : POp} (hp : t.param = true) (hv : varsDeclared t p = true)
+    (hc : storeCheck t p = none) : tstep t p = (storeT t p, none) := by
+  have ht : (if p.isParam = true then ({ t with param := true } : Tmpl) else t) = t := by
+    split
+    · cases t; simp_all
+    · rfl
+  unfold tstep
+  simp only [ht, hv, Bool.not_true, Bool.and_false, Bool.false_eq_true, if_false, hp, hc]
+  unfold storeT
+  cases p <;> simp [hp]
 
 end Param
 end Pulser
